@@ -32,7 +32,7 @@ from .. import corpus, opgen
 from ..engine import fork_call, ensure_repo_on_path, REPO
 from ..snapshot import enc, compare, path_class, digest, Ctx, excerpt
 from ..simfs import SimFS, SimCrash
-from ..interrupt import Interrupter, SimInterrupt
+from ..interrupt import Interrupter, SimInterrupt, in_unprotectable_position
 
 PROP = "C19"
 NAME = "csvfs"
@@ -1157,7 +1157,13 @@ def run_workload(plan, srcs, fault=None, interrupt=None, twin=None,
                     # ... or already RELEASING it (a context manager written
                     # in Python cannot protect its own __exit__ / close)
                     "__exit__", "close", "__del__")
-                    for fn in int_holder[0].frame_stack))
+                    for fn in int_holder[0].frame_stack)
+                # ... or on the `try:` line that follows an explicit open(),
+                # or inside a `finally:` / `except` clause (third soundness
+                # round: `file = open(..); try: ..; finally: file.close()`
+                # was flagged for an interrupt on the `file.close()` line)
+                or any(in_unprotectable_position(fn_, ln_)
+                       for fn_, ln_ in int_holder[0].frame_positions))
         if kept_exc and kindf != "crash" and op["op"] == "csv" \
                 and not on_with_header:
             import gc
